@@ -47,8 +47,10 @@ Operations(kind) ==
     [] kind = "cds" -> {"to_gff", "to_gff_parent_qualifiers", "export_qualifiers_parent", "optimize_blocks_op",
                         "liftover_to_chunk", "incorporate_variant"}
     [] kind = "transcript" -> {"to_gff", "to_gff_parent_qualifiers", "to_bed12", "export_qualifiers_parent",
-                               "intersect_location", "liftover_to_chunk", "incorporate_variant"}
-    [] kind = "gene" -> {"to_gff", "query_by_guids", "liftover_to_chunk", "incorporate_variant"}
+                               "intersect_location", "liftover_to_chunk", "incorporate_variant",
+                               \* the object handed to the constructor of an enclosing aggregate (no parent argument)
+                               "collect_into_gene", "collect_into_collection"}
+    [] kind = "gene" -> {"to_gff", "query_by_guids", "liftover_to_chunk", "incorporate_variant", "collect_into_collection"}
     [] kind = "collection" -> {"to_gff", "query_by_position", "query_by_interval_guids", "to_genbank_dict",
                                "incorporate_variant"}
 Kinds == {"location", "parent", "sequence", "cds", "transcript", "gene", "collection"}
